@@ -200,9 +200,9 @@ def pipeline_model(chk):
     quick = chk.tier == "quick"
     work = []
     for ns, saved in (((2, ()), (2, (1, 2))) if quick else ((2, ()), (2, (1, 2)), (3, ()), (3, (1, 3)))):
-        for nch in ((5, 10) if ns == 2 else (4, 8)):
+        for nch in ((16, 32) if ns == 2 else (12, 24)):          # long enough for the bound to bite: NChunks > k + NS * (2 * cap + 1)
             work.append((ns, nch, (1, 2) if quick or ns == 3 else (1, 2, 3), saved, (1, 2), True))
-    work.append((2, 10, (1,), (), (1,), False))
+    work.append((2, 16, (1,), (), (1,), False))
     res = V.pmap(pipeline_model_job, work, procs=4)
     for r in res:
         if r["out"]:
